@@ -155,10 +155,16 @@ Definition mon_C07 : monitor := fun L s st s' =>
     forallb (fun p => let lp := s_pair L s p 7 in
       (s_supply L s lp =? s_supply L s' lp) ||
       match o with
-      | OProvide p' _ _ _ _ _ _ _ _ => (p' =? p) && (s_supply L s lp <? s_supply L s' lp)
-      | OSend t _ tg _ HWithdraw => (t =? lp) && (tg =? p) && (s_supply L s' lp <? s_supply L s lp)
+      (* a provision only mints (no LP balance falls, whoever holds it - the pair's own idle LP included); a withdrawal
+         takes exactly the amount sent out of the supply and leaves the pair's own LP balance where it was *)
+      | OProvide p' _ _ _ _ _ _ _ _ =>
+          (p' =? p) && (s_supply L s lp <? s_supply L s' lp) &&
+          all_accounts_b L (fun a => s_bal L s lp a <=? s_bal L s' lp a)
+      | OSend t _ tg n HWithdraw =>
+          (t =? lp) && (tg =? p) && (s_supply L s' lp + n =? s_supply L s lp) && (s_bal L s' lp p =? s_bal L s lp p)
       | OBurn t _ _ => t =? lp
-      | OSendFrom t _ _ tg _ HWithdraw => (t =? lp) && (tg =? p) && (s_supply L s' lp <? s_supply L s lp)
+      | OSendFrom t _ _ tg n HWithdraw =>
+          (t =? lp) && (tg =? p) && (s_supply L s' lp + n =? s_supply L s lp) && (s_bal L s' lp p =? s_bal L s lp p)
       | OBurnFrom t _ _ _ => t =? lp
       | _ => false
       end) (existing_pairs L s) in
